@@ -199,6 +199,15 @@ def equivalence_leg(part, rnd, case, variant, exe, out, fam):
         part.count(fam + ": equivalent formulation rejected with another error (owned by C16)")
         return
     if v0 != v1:
+        # which of the two is wrong? 'unsolvable' is C02's only if the problem has a solution; a wrong 'solvable' (a reported solution that
+        # violates a constraint) is C01's and is reported there
+        truth = "sat" if case["planted"] is not None else z3_sat(case)
+        if truth == "unsat":
+            part.count(fam + ": verdict differences in which 'unsolvable' is the right answer (the wrong 'solvable' is owned by C01)")
+            return
+        if truth == "unknown":
+            part.inconc("z3 unknown")
+            return
         part.violation(fam + "/equivalent-formulations-get-different-verdicts", "the problem is %s, an equivalent formulation of it (%s) is %s" % (v0, what, v1),
                        {"program": case["text"], "equivalent_program": text2, "transformation": what, "variant": variant, "verdicts": [v0, v1]})
 
